@@ -2,6 +2,7 @@ package main
 
 import (
 	"fmt"
+	"strconv"
 	"go/token"
 	"go/types"
 	"sort"
@@ -52,6 +53,21 @@ func (x *Exec) roleSite(v ssa.Value) string {
 		if v.Comment != "" {
 			return "local " + v.Comment + " of " + x.prog.relName(v.Parent())
 		}
+	case *ssa.Lookup:
+		return "element of " + strings.TrimPrefix(describe(v.X), "*")
+	case *ssa.Extract:
+		if l, ok := v.Tuple.(*ssa.Lookup); ok {
+			return "element of " + strings.TrimPrefix(describe(l.X), "*")
+		}
+		if c, ok := v.Tuple.(*ssa.Call); ok {
+			if f := c.Call.StaticCallee(); f != nil {
+				return fmt.Sprintf("result %d of %s", v.Index, x.prog.relName(f))
+			}
+		}
+	case *ssa.Call:
+		if f := v.Call.StaticCallee(); f != nil {
+			return "result 0 of " + x.prog.relName(f)
+		}
 	}
 	return ""
 }
@@ -90,6 +106,11 @@ func (x *Exec) calleeSpec(c *ssa.CallCommon, fr *Frame) *FuncSpec {
 			}
 			return nil
 		}
+		if v := x.variantKey(c); v != "" {
+			if vs := x.prog.spec.Externs[f.String()+"["+v+"]"]; vs != nil {
+				return vs
+			}
+		}
 		return x.prog.spec.Externs[f.String()]
 	case *ssa.MakeClosure:
 		return x.prog.spec.Funcs[x.prog.relName(f.Fn.(*ssa.Function))]
@@ -115,6 +136,7 @@ type callCtx struct {
 	label string // callee name for obligation details
 	pos   token.Pos
 	isGo  bool
+	self  *Val // the function value being called (callback roles): bound to self_
 }
 
 func (x *Exec) applySpec(st *State, fs *FuncSpec, names []string, args []Val, sig *types.Signature, cc callCtx) Val {
@@ -125,6 +147,9 @@ func (x *Exec) applySpec(st *State, fs *FuncSpec, names []string, args []Val, si
 	vars := map[string]Val{}
 	for i, n := range names {
 		vars[n] = args[i]
+	}
+	if cc.self != nil {
+		vars["self_"] = *cc.self
 	}
 	pre := st.snap()
 	env := &Env{x: x, st: st, old: pre, vars: vars}
@@ -164,6 +189,7 @@ func (x *Exec) applySpec(st *State, fs *FuncSpec, names []string, args []Val, si
 	if cc.isGo {
 		return Val{}
 	}
+	st.prepareAlloc()
 	// frame: everything the callee may modify must be writable by the caller
 	if fs.ModAll {
 		if !x.modAll {
@@ -247,13 +273,44 @@ func (x *Exec) call(st *State, b *ssa.BasicBlock, idx int, in *ssa.Call) bool {
 
 // callCommon performs a call. If it returns done=true the result is available
 // immediately; otherwise the call was inlined and k will be invoked later.
+// variantKey: the static type behind the first interface-typed argument that
+// is built at the call site (MakeInterface / ChangeInterface), used to select
+// a type-specific contract of a generic library function (json.Marshal, ...).
+func (x *Exec) variantKey(c *ssa.CallCommon) string {
+	for _, a := range c.Args {
+		switch a := a.(type) {
+		case *ssa.MakeInterface:
+			return typeRelName(x.prog, a.X.Type())
+		case *ssa.ChangeInterface:
+			return typeRelName(x.prog, a.X.Type())
+		}
+	}
+	return ""
+}
+
 func (x *Exec) callCommon(st *State, c *ssa.CallCommon, args []Val, pos token.Pos, k func(*State, Val)) (bool, Val) {
 	sig := c.Signature()
+	x.curCall = c
+	defer func() { x.curCall = nil }()
 	if c.IsInvoke() {
 		recv := x.value(st, c.Value)
 		x.oblige(st, "nilinvoke", describe(c.Value), tNot(tEq(recv.L[0], "0")), x.spec.Props, "method call on nil interface value", pos)
 		st.assume(tNot(tEq(recv.L[0], "0")))
 		key := x.invokeKey(c)
+		// devirtualise when the dynamic type is known on this path
+		if id, err := strconv.Atoi(recv.L[0]); err == nil {
+			if dt, ok := x.prog.typeByID[id]; ok {
+				if m := x.prog.prog.LookupMethod(dt, c.Method.Pkg(), c.Method.Name()); m != nil {
+					var rv Val
+					if isPointerLike(dt) {
+						rv = Val{T: dt, L: []Term{recv.L[1]}}
+					} else {
+						rv = st.loadVal(recv.L[1], dt)
+					}
+					return x.callFunction(st, m, nil, append([]Val{rv}, args...), pos, k)
+				}
+			}
+		}
 		fs := x.prog.spec.Methods[key]
 		if fs == nil {
 			return true, x.unknownCall(st, key, sig, pos)
@@ -275,7 +332,7 @@ func (x *Exec) callCommon(st *State, c *ssa.CallCommon, args []Val, pos token.Po
 	}
 	site := x.roleSite(c.Value)
 	if r := x.roleFor(site); r != nil {
-		return true, x.applySpec(st, r, r.Params, args, sig, callCtx{label: "role:" + r.Name, pos: pos})
+		return true, x.applySpec(st, r, r.Params, args, sig, callCtx{label: "role:" + r.Name, pos: pos, self: &fv})
 	}
 	return true, x.unknownCall(st, "function value ("+site+")", sig, pos)
 }
@@ -288,6 +345,14 @@ func (x *Exec) callFunction(st *State, f *ssa.Function, bindings []Val, args []V
 		fs = x.prog.spec.Funcs[name]
 	} else {
 		fs = x.prog.spec.Externs[f.String()]
+		if x.curCall != nil {
+			if v := x.variantKey(x.curCall); v != "" {
+				if vs := x.prog.spec.Externs[f.String()+"["+v+"]"]; vs != nil {
+					fs = vs
+					name = name + "[" + v + "]"
+				}
+			}
+		}
 	}
 	if name == "verifAssert" || name == "verifAssume" {
 		g := args[0].L[0]
@@ -329,6 +394,7 @@ func (x *Exec) unknownCall(st *State, name string, sig *types.Signature, pos tok
 	if !x.modAll {
 		x.oblige(st, "frame", "uncontracted:"+name, "false", x.spec.Props, "call to "+name+" has no contract (may modify anything)", pos)
 	}
+	st.prepareAlloc()
 	st.havocAll(func(Term) Term { return "false" })
 	st.bumpAlloc()
 	var res Val
@@ -393,7 +459,9 @@ func (x *Exec) builtin(st *State, f *ssa.Builtin, c *ssa.CallCommon, args []Val,
 		n := x.d.FreshConst("copied", "Int")
 		st.assume(tAnd("(>= "+n+" 0)", "(<= "+n+" "+args[0].L[2]+")", "(<= "+n+" "+args[1].L[2]+")"))
 		x.notes = append(x.notes, "copy: destination contents not tracked")
+		st.pendingAlloc = st.alloc
 		st.havocAll(func(a Term) Term { return tNot(tEq(tRid(a), tRid(args[0].L[0]))) })
+		st.pendingAlloc = ""
 		return one(n)
 	}
 	panic(unsupported("builtin " + f.Name()))
